@@ -39,6 +39,10 @@ def run(ctx, rep):
         check_issafe(crate, rep, cfg)
         check_esc(crate, rep, cfg)
         check_cfg(crate, rep, cfg)
+        # a literal in an expression is escaped at render time by WriteTop: the fusion pass must not turn value writes into text writes
+        # (it may build only the path-fusion instructions) — C09.ONLY, shared
+        from props import c09
+        c09.check_only(crate, crate.one("parsing::instructions::Chunk::optimize"), rep, cfg)
     pos = ctx.posctl()
     b = pos.bodies.get("sinkctl::VM::leaky")
     fired = False
